@@ -44,8 +44,11 @@ type zzExt struct {
 	faultsHit *int
 }
 
+// nilFinish: fault kind 3 on a start hook = the hook returns a nil finish function
+func (e *zzExt) nilFinish(h int) bool { return h == e.faultHook && e.faultKind == 3 }
+
 func (e *zzExt) maybeFault(h int) {
-	if h == e.faultHook {
+	if h == e.faultHook && e.faultKind != 3 {
 		*e.faultsHit++
 		switch e.faultKind {
 		case 0:
@@ -69,6 +72,9 @@ func (e *zzExt) Name() string { return e.name }
 func (e *zzExt) ParseDidStart(ctx context.Context) (context.Context, ParseFinishFunc) {
 	e.ev(zzHParseStart, false)
 	e.maybeFault(zzHParseStart)
+	if e.nilFinish(zzHParseStart) {
+		return ctx, nil
+	}
 	return ctx, func(err error) {
 		e.ev(zzHParseFinish, err != nil)
 		e.maybeFault(zzHParseFinish)
@@ -77,6 +83,9 @@ func (e *zzExt) ParseDidStart(ctx context.Context) (context.Context, ParseFinish
 func (e *zzExt) ValidationDidStart(ctx context.Context) (context.Context, ValidationFinishFunc) {
 	e.ev(zzHValStart, false)
 	e.maybeFault(zzHValStart)
+	if e.nilFinish(zzHValStart) {
+		return ctx, nil
+	}
 	return ctx, func(errs []gqlerrors.FormattedError) {
 		e.ev(zzHValFinish, len(errs) > 0)
 		e.maybeFault(zzHValFinish)
@@ -85,6 +94,9 @@ func (e *zzExt) ValidationDidStart(ctx context.Context) (context.Context, Valida
 func (e *zzExt) ExecutionDidStart(ctx context.Context) (context.Context, ExecutionFinishFunc) {
 	e.ev(zzHExecStart, false)
 	e.maybeFault(zzHExecStart)
+	if e.nilFinish(zzHExecStart) {
+		return ctx, nil
+	}
 	return ctx, func(r *Result) {
 		e.ev(zzHExecFinish, r != nil)
 		e.maybeFault(zzHExecFinish)
@@ -93,6 +105,9 @@ func (e *zzExt) ExecutionDidStart(ctx context.Context) (context.Context, Executi
 func (e *zzExt) ResolveFieldDidStart(ctx context.Context, i *ResolveInfo) (context.Context, ResolveFieldFinishFunc) {
 	e.ev(zzHResolveStart, false)
 	e.maybeFault(zzHResolveStart)
+	if e.nilFinish(zzHResolveStart) {
+		return ctx, nil
+	}
 	return ctx, func(v interface{}, err error) {
 		e.ev(zzHResolveFinish, err != nil)
 		e.maybeFault(zzHResolveFinish)
@@ -134,7 +149,11 @@ func ZZ_C17_hooks() {
 	fh := zzChoice("fhook", zzNumHooks+1) - 1 // -1 = no fault
 	fk := 0
 	if fh >= 0 {
-		fk = zzChoice("fkind", 3)
+		fk = zzChoice("fkind", 4)
+		if fk == 3 {
+			// a nil finish function only makes sense for the four start hooks
+			zzAssume(fh == zzHParseStart || fh == zzHValStart || fh == zzHExecStart || fh == zzHResolveStart)
+		}
 	}
 	sameName := next == 2 && zzChoice("samename", 2) == 1
 	var exts []Extension
@@ -167,9 +186,10 @@ func ZZ_C17_hooks() {
 	}
 	schema := zzBuildSchema(w)
 	schema.AddExtensions(exts...)
-	if next >= 2 && (fh == zzHParseStart || fh == zzHValStart || fh == zzHExecStart) {
-		zzKnown("KF-C17-skip-finish")
-	}
+	// a phase whose start hook panicked in some extension is abandoned; the
+	// extensions that saw it start are told it ended in failure
+	abortedParse := fk != 3 && fh == zzHParseStart
+	abortedVal := fk != 3 && fh == zzHValStart
 	var r *Result
 	zzGuard("Do with extensions", func() { r = Do(Params{Schema: schema, RequestString: req.text}) })
 	zzAssert(r != nil, "nil result")
@@ -190,7 +210,9 @@ func ZZ_C17_hooks() {
 		stage := 0 // 0 before init, 1 after init, 2 parse done, 3 validation done, 4 exec done
 		resolveOpen := false
 		nResolveStart := 0
-		faulted := func(h int) bool { return i == fe && fh == h }
+		faulted := func(h int) bool { return i == fe && fh == h && fk != 3 }
+		// a start hook that returned a nil finish function: the phase runs, nothing is to be called at its end
+		nilFin := func(h int) bool { return i == fe && fh == h && fk == 3 }
 		for _, e := range seq {
 			switch e.hook {
 			case zzHInit:
@@ -203,18 +225,24 @@ func ZZ_C17_hooks() {
 				}
 			case zzHParseFinish:
 				zzAssert(open == zzHParseStart, "ParseFinish without a started parse phase")
-				zzAssert(e.flag == (req.outcome == "syntax"), "ParseFinish told the wrong outcome")
+				zzAssert(e.flag == (req.outcome == "syntax" || abortedParse), "ParseFinish told the wrong outcome")
 				open, stage = -1, 2
 			case zzHValStart:
+				if open == zzHParseStart && nilFin(zzHParseStart) {
+					open, stage = -1, 2
+				}
 				zzAssert(stage == 2 && open == -1, "ValidationDidStart out of order")
 				if !faulted(zzHValStart) {
 					open = zzHValStart
 				}
 			case zzHValFinish:
 				zzAssert(open == zzHValStart, "ValidationFinish without a started validation phase")
-				zzAssert(e.flag == (req.outcome == "validation"), "ValidationFinish told the wrong outcome")
+				zzAssert(e.flag == (req.outcome == "validation" || abortedVal), "ValidationFinish told the wrong outcome")
 				open, stage = -1, 3
 			case zzHExecStart:
+				if open == zzHValStart && nilFin(zzHValStart) {
+					open, stage = -1, 3
+				}
 				zzAssert(stage == 3 && open == -1, "ExecutionDidStart out of order")
 				if !faulted(zzHExecStart) {
 					open = zzHExecStart
@@ -226,12 +254,18 @@ func ZZ_C17_hooks() {
 			case zzHResolveStart:
 				zzAssert(open == zzHExecStart && !resolveOpen, "ResolveFieldDidStart outside the execution phase")
 				nResolveStart++
-				if !faulted(zzHResolveStart) {
+				if !faulted(zzHResolveStart) && !nilFin(zzHResolveStart) {
 					resolveOpen = true
 				}
 			case zzHResolveFinish:
 				zzAssert(resolveOpen, "ResolveFieldFinish without a start")
 				resolveOpen = false
+			}
+		}
+		if open >= 0 && nilFin(open) {
+			open = -1 // nothing to call for a phase whose start hook returned no finish function
+			if stage == 3 {
+				stage = 4
 			}
 		}
 		zzAssert(open == -1 && !resolveOpen, "a started phase was never finished")
